@@ -51,6 +51,8 @@ Fixpoint dec_e (fuel : nat) (v : val) : option expr :=
     | VL [VZ 16; VZ k; i] =>
       match (if k =? 0 then Some TSpecial else if k =? 1 then Some TDateTime else if k =? 2 then Some TSystem else None), get_n i with
       | Some k', Some i' => Some (EThe k' i') | _, _ => None end
+    | VL [VZ 17; k] => option_map ETheN (get_n k)
+    | VL [VZ 18; k; a] => match get_n k, dec_e f a with Some k', Some a' => Some (EAcc k' a') | _, _ => None end
     | _ => None
     end
   end.
@@ -127,6 +129,7 @@ Fixpoint text_okb (en : env) (e : expr) {struct e} : bool :=
   | EObj _ _ x => text_okb en x
   | EMenu _ it mn => text_okb en it && text_okb en mn
   | EThe TSystem i => starts_with "_" (assoc_or (nth i (the_table TSystem) "") SYSTEM_PROPERTIES)
+  | EAcc _ x => text_okb en x && acc_plain (render en (pp_tok en x))
   | _ => true
   end.
 Fixpoint js_okb (en : env) (e : expr) {struct e} : bool :=
@@ -139,6 +142,7 @@ Fixpoint js_okb (en : env) (e : expr) {struct e} : bool :=
   | EList items | EPList items => forallb (js_okb en) items
   | EObj f _ x => js_okb en x && match f with FLast | FNumber => negb (needs_paren en x) | _ => true end
   | EMenu _ it mn => js_okb en it && js_okb en mn
+  | EAcc _ _ => false
   | _ => true
   end.
 Definition par_okb (en : env) (i : nat) : bool :=
